@@ -151,6 +151,7 @@ void FlexPath::scale(double scael_factor, const Vec2 center) {
         Vec2* wo = el->half_width_and_offset.items;
         for (uint64_t num = spine.point_array.count; num > 0; num--) *wo++ *= wo_scale;
     }
+    repetition.transform(scael_factor, false, 0);
 }
 
 void FlexPath::mirror(const Vec2 p0, const Vec2 p1) {
@@ -167,6 +168,7 @@ void FlexPath::mirror(const Vec2 p0, const Vec2 p1) {
         Vec2* wo = el->half_width_and_offset.items;
         for (uint64_t num = spine.point_array.count; num > 0; num--, wo++) wo->v = -wo->v;
     }
+    repetition.transform(1, true, 2 * v.angle());
 }
 
 void FlexPath::rotate(double angle, const Vec2 center) {
@@ -178,6 +180,7 @@ void FlexPath::rotate(double angle, const Vec2 center) {
         p->x = q.x * ca - q.y * sa + center.x;
         p->y = q.x * sa + q.y * ca + center.y;
     }
+    repetition.transform(1, false, angle);
 }
 
 void FlexPath::apply_repetition(Array<FlexPath*>& result) {
@@ -229,6 +232,7 @@ void FlexPath::transform(double magnification, bool x_reflection, double rotatio
         Vec2* wo = el->half_width_and_offset.items;
         for (uint64_t num = spine.point_array.count; num > 0; num--) *wo++ *= wo_scale;
     }
+    repetition.transform(magnification, x_reflection, rotation);
 }
 
 void FlexPath::remove_overlapping_points() {
